@@ -402,6 +402,10 @@ func (p *parser) primary() *Node {
 		case "true", "false":
 			return &Node{Kind: "bool", Val: t.s}
 		case "forall", "exists":
+			if p.peek().k != "id" {
+				// a program identifier that happens to be called forall / exists
+				return &Node{Kind: "ident", Name: t.s}
+			}
 			var vars []string
 			for {
 				v := p.next()
